@@ -30,8 +30,10 @@ import (
 	p4 "github.com/p4lang/p4runtime/go/p4/v1"
 	"go.uber.org/zap/zapcore"
 	"google.golang.org/grpc"
+	"google.golang.org/grpc/codes"
 	"google.golang.org/grpc/connectivity"
 	"google.golang.org/grpc/credentials/insecure"
+	"google.golang.org/grpc/status"
 )
 
 type c19In struct {
@@ -41,6 +43,21 @@ type c19In struct {
 	Method    string `json:"method"`     // request method, used verbatim
 	BodyB64   string `json:"body_b64"`   // request body bytes
 	FailAfter int    `json:"fail_after"` // >= 0: the body reader fails after that many bytes
+	Refuse    bool   `json:"refuse"`     // the datapath server answers every call of this request with an error
+}
+
+// a history against ONE ConfigHandler + upf + datapath plug-in
+type c19SeqIn struct {
+	Dp    string  `json:"dp"`
+	Slice uint8   `json:"slice"`
+	Tc    uint8   `json:"tc"`
+	Reqs  []c19In `json:"reqs"` // dp / slice / tc of the elements are ignored
+}
+
+type c19SeqOut struct {
+	Steps    []*c19Out  `json:"steps"`
+	Final    *c19Stored `json:"final"` // upf.sliceInfo at the end, if any request replaced it
+	Attempts int        `json:"attempts"`
 }
 
 type c19BessWrite struct {
@@ -57,6 +74,7 @@ type c19BessWrite struct {
 	Deduct    int64    `json:"deduct"`
 	Fields    []uint64 `json:"fields"`
 	NValues   int      `json:"n_values"`
+	Refused   bool     `json:"refused"` // the server answered this call with an error
 }
 
 type c19Up4Write struct {
@@ -70,6 +88,7 @@ type c19Up4Write struct {
 	Cburst  int64  `json:"cburst"`
 	Pir     int64  `json:"pir"`
 	Pburst  int64  `json:"pburst"`
+	Refused bool   `json:"refused"`
 }
 
 type c19Stored struct {
@@ -152,8 +171,9 @@ func (r *c19FailReader) Close() error { return nil }
 // ---- recording BESS server
 type c19BessServer struct {
 	pb.UnimplementedBESSControlServer
-	mu   sync.Mutex
-	cmds []c19BessWrite
+	mu     sync.Mutex
+	cmds   []c19BessWrite
+	refuse bool
 }
 
 func (s *c19BessServer) ModuleCommand(ctx context.Context, req *pb.CommandRequest) (*pb.CommandResponse, error) {
@@ -180,8 +200,12 @@ func (s *c19BessServer) ModuleCommand(ctx context.Context, req *pb.CommandReques
 		}
 	}
 	s.mu.Lock()
+	w.Refused = s.refuse
 	s.cmds = append(s.cmds, w)
 	s.mu.Unlock()
+	if w.Refused {
+		return nil, status.Error(codes.Unavailable, "c19: BESS refuses")
+	}
 	return &pb.CommandResponse{}, nil
 }
 
@@ -201,6 +225,7 @@ type c19P4Server struct {
 	p4.UnimplementedP4RuntimeServer
 	mu     sync.Mutex
 	writes []c19Up4Write
+	refuse bool
 }
 
 func (s *c19P4Server) Write(ctx context.Context, req *p4.WriteRequest) (*p4.WriteResponse, error) {
@@ -220,7 +245,11 @@ func (s *c19P4Server) Write(ctx context.Context, req *p4.WriteRequest) (*p4.Writ
 		} else {
 			w.Kind = fmt.Sprintf("%T", u.GetEntity().GetEntity())
 		}
+		w.Refused = s.refuse
 		s.writes = append(s.writes, w)
+	}
+	if s.refuse {
+		return nil, status.Error(codes.Unavailable, "c19: P4Runtime target refuses")
 	}
 	return &p4.WriteResponse{}, nil
 }
@@ -345,18 +374,49 @@ func c19DecodeOracle(body []byte) c19Decode {
 	return d
 }
 
-// one request against a fresh upf; the sentinel tells whether upf.sliceInfo was replaced
-func c19Once1(in *c19In, body []byte, out *c19Out) {
+// one ConfigHandler + upf + datapath plug-in, serving one request after the other
+type c19Session struct {
+	u        *upf
+	mux      *http.ServeMux
+	sentinel *SliceInfo
+}
+
+func c19NewSession(in *c19In) (*c19Session, error) {
 	dp, err := c19Datapath(in)
 	if err != nil {
-		out.Panic = "harness: " + err.Error()
-		return
+		return nil, err
 	}
 	sentinel := &SliceInfo{name: "c19-sentinel"}
 	u := &upf{datapath: dp, sliceInfo: sentinel}
 	mux := http.NewServeMux()
 	setupConfigHandler(mux, u)
+	return &c19Session{u: u, mux: mux, sentinel: sentinel}, nil
+}
 
+func c19StoredOf(s *SliceInfo) *c19Stored {
+	if s == nil {
+		return &c19Stored{Name: "<nil>", Ue: [][2]string{}}
+	}
+	st := &c19Stored{Name: s.name, Ul: s.uplinkMbr, Dl: s.downlinkMbr, Ulb: s.ulBurstBytes, Dlb: s.dlBurstBytes, Ue: [][2]string{}}
+	for _, r := range s.ueResList {
+		st.Ue = append(st.Ue, [2]string{r.name, r.dnn})
+	}
+	return st
+}
+
+func c19SetRefuse(v bool) {
+	c19BessSrv.mu.Lock()
+	c19BessSrv.refuse = v
+	c19BessSrv.mu.Unlock()
+	c19P4Srv.mu.Lock()
+	c19P4Srv.refuse = v
+	c19P4Srv.mu.Unlock()
+}
+
+// one request; out.Stored tells whether THIS request replaced upf.sliceInfo (pointer comparison)
+func (ss *c19Session) step(in *c19In, body []byte, out *c19Out) {
+	u := ss.u
+	before := u.sliceInfo
 	var rd io.Reader
 	if in.FailAfter >= 0 {
 		k := in.FailAfter
@@ -373,6 +433,7 @@ func c19Once1(in *c19In, body []byte, out *c19Out) {
 	w := &c19Writer{rec: httptest.NewRecorder()}
 	c19BessSrv.take()
 	c19P4Srv.take()
+	c19SetRefuse(in.Refuse)
 	t0 := time.Now()
 	func() {
 		defer func() {
@@ -380,9 +441,10 @@ func c19Once1(in *c19In, body []byte, out *c19Out) {
 				out.Panic = fmt.Sprint(r)
 			}
 		}()
-		mux.ServeHTTP(w, req)
+		ss.mux.ServeHTTP(w, req)
 	}()
 	out.ElapsedMs = time.Since(t0).Milliseconds()
+	c19SetRefuse(false)
 	out.Statuses = w.statuses
 	if out.Statuses == nil {
 		out.Statuses = []int{}
@@ -393,18 +455,42 @@ func c19Once1(in *c19In, body []byte, out *c19Out) {
 	out.Bess = c19BessSrv.take()
 	out.Up4 = c19P4Srv.take()
 	out.Stored = nil
-	if u.sliceInfo != sentinel {
-		if u.sliceInfo == nil {
-			out.Stored = &c19Stored{Name: "<nil>", Ue: [][2]string{}}
-		} else {
-			s := u.sliceInfo
-			st := &c19Stored{Name: s.name, Ul: s.uplinkMbr, Dl: s.downlinkMbr, Ulb: s.ulBurstBytes, Dlb: s.dlBurstBytes, Ue: [][2]string{}}
-			for _, r := range s.ueResList {
-				st.Ue = append(st.Ue, [2]string{r.name, r.dnn})
-			}
-			out.Stored = st
-		}
+	if u.sliceInfo != before {
+		out.Stored = c19StoredOf(u.sliceInfo)
 	}
+}
+
+// one request against a fresh upf
+func c19Once1(in *c19In, body []byte, out *c19Out) {
+	ss, err := c19NewSession(in)
+	if err != nil {
+		out.Panic = "harness: " + err.Error()
+		return
+	}
+	ss.step(in, body, out)
+}
+
+func c19RunSeq(in *c19SeqIn, bodies [][]byte) (*c19SeqOut, bool) {
+	res := &c19SeqOut{Steps: []*c19Out{}}
+	ss, err := c19NewSession(&c19In{Dp: in.Dp, Slice: in.Slice, Tc: in.Tc})
+	if err != nil {
+		res.Steps = append(res.Steps, &c19Out{Panic: "harness: " + err.Error()})
+		return res, false
+	}
+	slow := false
+	for i := range in.Reqs {
+		out := &c19Out{}
+		ss.step(&in.Reqs[i], bodies[i], out)
+		out.Decode = c19DecodeOracle(bodies[i])
+		if out.ElapsedMs >= Timeout.Milliseconds()*7/10 {
+			slow = true
+		}
+		res.Steps = append(res.Steps, out)
+	}
+	if ss.u.sliceInfo != ss.sentinel {
+		res.Final = c19StoredOf(ss.u.sliceInfo)
+	}
+	return res, slow
 }
 
 type c19Bytes struct {
@@ -457,6 +543,39 @@ func init() {
 		}
 		out.Decode = c19DecodeOracle(body)
 		return out, nil
+	})
+
+	// a history of requests against one handler + upf + datapath plug-in
+	verifRegister("c19_seq", func(raw json.RawMessage) (interface{}, error) {
+		var in c19SeqIn
+		if err := json.Unmarshal(raw, &in); err != nil {
+			return nil, err
+		}
+		bodies := make([][]byte, len(in.Reqs))
+		for i := range in.Reqs {
+			b, err := base64.StdEncoding.DecodeString(in.Reqs[i].BodyB64)
+			if err != nil {
+				return nil, err
+			}
+			bodies[i] = b
+		}
+		c19Once.Do(c19Init)
+		if c19InitErr != nil {
+			return nil, c19InitErr
+		}
+		var res *c19SeqOut
+		// same precaution as in mode c19: a request that came near bess.AddSliceInfo's 1 s budget
+		// may have lost commands to timing; let stragglers arrive and run the history again
+		for attempt := 1; attempt <= 4; attempt++ {
+			var slow bool
+			res, slow = c19RunSeq(&in, bodies)
+			res.Attempts = attempt
+			if !slow {
+				break
+			}
+			time.Sleep(Timeout + 500*time.Millisecond)
+		}
+		return res, nil
 	})
 
 	// unit level: GetSliceTCMeterIndex over all uint8 pairs (result or -1 for an error), and the
